@@ -99,6 +99,9 @@ def batched_rows(ck, tier, seed):
             return torch.cat([1000.0 * c, torch.zeros_like(c)], 1)
     dists["ConditionalDiagonalNormal(scalar event)"] = normal.ConditionalDiagonalNormal([], context_encoder=EncS())
     dists["Flow(scalar event)"] = None
+    # no encoder at all: the context IS the parameter tensor (means, log-stds), so every view the sampler takes is a view of the
+    # caller's tensor; each batch of a batched draw sees the same context
+    dists["ConditionalDiagonalNormal(identity encoder)"] = normal.ConditionalDiagonalNormal([1])
     ns = [1, 2, 3, 5, 6, 7] if tier == "quick" else list(range(1, 10))
     for name, d in dists.items():
         if d is None:
@@ -107,7 +110,17 @@ def batched_rows(ck, tier, seed):
             ctx = torch.arange(1, rows + 1, dtype=torch.float32).reshape(rows, 1)
             for n_, bs in itertools.product(ns, [None, 1, 2, 3, 4, 8]):
                 torch.manual_seed(seed + n_)
+                if "identity encoder" in name:
+                    ctx_id = ctx
+                    ctx = torch.cat([1000.0 * ctx_id, torch.zeros_like(ctx_id)], 1)
+                    ctx_keep = ctx.clone()
                 r = attempt(d.sample, n_, ctx, bs) if bs is not None else attempt(d.sample, n_, ctx)
+                if "identity encoder" in name:
+                    if not torch.equal(ctx, ctx_keep):
+                        ck.finding("sample:context-changed:%s" % ("batched" if bs is not None else "plain"),
+                                   "%s.sample(%d, %d rows, batch_size=%s) changed the caller's context tensor: log-std column %s"
+                                   % (name, n_, rows, bs, ctx[:, 1].tolist()), {"search": "batched-rows", "cls": name, "rows": rows, "n": n_, "bs": bs})
+                    ctx = ctx_id
                 ck.case(("rows", name, rows, n_, bs), nontrivial=rows > 1 and n_ > 1)
                 case = {"search": "batched-rows", "cls": name, "rows": rows, "n": n_, "bs": bs}
                 scalar = "scalar event" in name
